@@ -3,4 +3,5 @@ CONSTANTS
   YLO = 1890
   YHI = 2110
   PP = 7
+  NEG = FALSE
 INVARIANTS CalInv EpochInv BigInv PrintParse
